@@ -14,7 +14,7 @@ from .shrink import shrink_case
 from .c12 import in_domain, STATES7, STATES5, kv
 
 PID = "C11"
-FAMS = ("int", "str", "tuple")
+FAMS = C.Labels.FAMILIES
 
 
 def br(s):
@@ -241,7 +241,7 @@ def rand_case(rng, i):
         R = [v for v in rest if rng.random() < 0.7]
     I = [v for v in R if rng.random() < rng.choice((0.0, 0.25, 0.5))]
     case = {"g": C.shuffled_graph(rng, g) if i % 3 == 0 else g, "x": x, "y": y, "I": sorted(I), "R": sorted(R),
-            "src": "rnd", "fam": FAMS[i % 3]}
+            "src": "rnd", "fam": FAMS[i % len(FAMS)]}
     if i % 5 == 1:
         present = "".join(k for k in "DBU" if g[k] or rng.random() < 0.5)
         if present:
@@ -273,7 +273,7 @@ def gen_cases(ctx):
         pairs = [(a, b) for a in range(n) for b in range(n) if a != b]
         for c in exhaustive_cases(n, graphs, pairs, "exh%d" % n):
             k += 1
-            c["fam"] = FAMS[k % 3]
+            c["fam"] = FAMS[k % len(FAMS)]
             if k % 7 == 0:
                 c["defaults"] = True
             yield c
@@ -285,7 +285,7 @@ def gen_cases(ctx):
         graphs = [g for j, g in enumerate(graphs) if j % 3 == ctx["seed"] % 3]
     for c in exhaustive_cases(4, graphs, [(0, 1)], "exh4"):
         k += 1
-        c["fam"] = FAMS[k % 3]
+        c["fam"] = FAMS[k % len(FAMS)]
         if k % 11 == 0:
             c["x"], c["y"] = 1, 0
         yield c
